@@ -12,15 +12,18 @@ is a recorded decision.
     sc.deadlocks    -> [] or the list of (task, where) that were blocked when nothing was runnable
 
 Threads are real OS threads; a baton (one lock per task) guarantees that only the task chosen by the
-strategy runs.  A task runs until its next *yield point*:
+strategy runs.  Baton passing is decentralised: the task that reaches a yield point consults the strategy itself
+and hands the baton directly to the chosen task (no OS-level switch at all when it chooses itself); the thread that
+called `run()` sleeps until everything has ended.  `Thread.start()` *primes* the new task (runs it up to its first
+yield point, not counted as a step) unless `prime=False`.  A task runs until its next *yield point*:
   * the outermost `acquire` of an RLock / Lock            (parks BEFORE acquiring, stays runnable)
   * `Condition.wait`                                      (releases the lock, BLOCKED until notified)
   * `Thread.join`, `Event.wait`, `SFuture.result` on something not finished yet   (BLOCKED)
   * `Thread.start` if `yield_on_start` (only when called from a task)
   * thread exit
   * explicit `sc.yield_point(tag)` calls placed by a harness (source iterators, workers)
-so one step of the controller = one atomic block = one action of the Lean model (Model/Mailbox.lean).
-Timeouts never fire spontaneously: when no task is runnable and some are alive the controller records a
+so one scheduling decision = one atomic block = one action of the Lean model (Model/Mailbox.lean).
+Timeouts never fire spontaneously: when no task is runnable and some are alive the scheduler records a
 DEADLOCK and only then delivers timeouts to every blocked task (wait returns False, result raises
 TimeoutError, ...) so the code under test unwinds; this repeats until every task has ended.
 
@@ -38,7 +41,7 @@ import types
 
 _local = _rt.local()
 
-HANG_TIMEOUT = 60.0      # seconds the controller waits for a task to reach its next yield point
+HANG_TIMEOUT = 60.0      # seconds without any progress after which the machinery gives up (SchedError)
 
 
 class SchedError(RuntimeError):
